@@ -231,6 +231,9 @@ func init() {
 	})
 	reg(&checkSpec{
 		ID: "C04", Harness: "eng", Inst: storagePkgs, Level: "exploration", Classes: []string{"C04:"},
+		// Compactor.write switches to the disk-backed TSM index only above an estimated 64 MiB of index: never in a
+		// simulated run.  With 512 bytes part of the compactions of every run take that path.
+		Knobs: map[string][2]string{"tsdb/engine/tsm1/compact.go": {"iter.EstimatedIndexSize() > 64*1024*1024", "iter.EstimatedIndexSize() > 512"}},
 		Cfgs: []cfgSpec{{Name: "compactor-over-engine-files", Cfg: fileCfg + ",nokeycursor,notombcheck", Gating: true, Share: 1},
 			{Name: "compactor-over-many-uncompacted-files", Cfg: fileCfg + ",nokeycursor,notombcheck,nocompact,wsnap=9,maxops=90", Gating: true, Share: 1}},
 		QuickSecs: 45, ThoroughSecs: 600, MaxRunsPerProc: 150,
@@ -241,6 +244,9 @@ func init() {
 	})
 	reg(&checkSpec{
 		ID: "C08", Harness: "eng", Inst: storagePkgs, Level: "fault_enumeration", Classes: []string{"C08:"},
+		// Compactor.write switches to the disk-backed TSM index only above an estimated 64 MiB of index: never in a
+		// simulated run.  With 512 bytes part of the compactions of every run take that path.
+		Knobs: map[string][2]string{"tsdb/engine/tsm1/compact.go": {"iter.EstimatedIndexSize() > 64*1024*1024", "iter.EstimatedIndexSize() > 512"}},
 		Cfgs:      []cfgSpec{{Name: "readback-and-tombstone-commit", Cfg: fileCfg + ",nokeycursor", Gating: true, Share: 1}},
 		QuickSecs: 45, ThoroughSecs: 600, MaxRunsPerProc: 150,
 		Rule:      "one case = the TSM files of one simulated engine run (and the outputs of compacting them): every index lookup checked against the file's content; plus one tombstone commit on one of the files with a crash image at every disk event of the commit (torn prefixes of each write); non-trivial = at least 4 operations and one context switch; distinct = distinct hash of (operations, schedule)",
